@@ -187,8 +187,46 @@ theorem countP_true_range (N : Nat) : (List.range N).countP (fun _ => true) = N 
 
 def isFinOf (m : Nat) (x : Entry) : Bool := x.finish && x.owner == m
 
-theorem trace_mem {p : List Entry} : ∀ {clk : Nat → Nat} {e : Entry} {c : Nat}, (e, c) ∈ trace clk p →
-    ∃ pre post, p = pre ++ e :: post ∧ c = clk e.owner + pre.countP (isFinOf e.owner) := by
+theorem getClk_incr (c : Clocks) : ∀ (m m' : Nat),
+    getClk (incr c m) m' = if m' = m then getClk c m' + 1 else getClk c m' := by
+  induction c with
+  | nil =>
+      intro m
+      induction m with
+      | zero => intro m'; cases m' <;> simp [incr, getClk]
+      | succ m ih =>
+          intro m'
+          cases m' with
+          | zero => simp [incr, getClk]
+          | succ m' =>
+              have := ih m'
+              simp only [getClk, incr, List.getD_cons_succ, Nat.add_right_cancel_iff] at this ⊢
+              simpa using this
+  | cons x r ih =>
+      intro m m'
+      cases m with
+      | zero => cases m' <;> simp [incr, getClk]
+      | succ m =>
+          cases m' with
+          | zero => simp [incr, getClk]
+          | succ m' =>
+              have := ih m m'
+              simp only [getClk, incr, List.getD_cons_succ, Nat.add_right_cancel_iff] at this ⊢
+              exact this
+
+theorem getClk_bump (clk : Clocks) (e : Entry) (m : Nat) :
+    getClk (bump clk e) m = getClk clk m + if isFinOf m e then 1 else 0 := by
+  unfold bump isFinOf
+  by_cases hf : e.finish = true
+  · simp only [hf, if_true, getClk_incr, Bool.true_and, beq_iff_eq]
+    by_cases h : m = e.owner
+    · simp [h]
+    · have h' : ¬ e.owner = m := fun x => h x.symm
+      simp [h, h']
+  · simp [hf]
+
+theorem trace_mem {p : List Entry} : ∀ {clk : Clocks} {e : Entry} {c : Nat}, (e, c) ∈ trace clk p →
+    ∃ pre post, p = pre ++ e :: post ∧ c = getClk clk e.owner + pre.countP (isFinOf e.owner) := by
   induction p with
   | nil => intro clk e c h; simp [trace] at h
   | cons e' r ih =>
@@ -200,37 +238,23 @@ theorem trace_mem {p : List Entry} : ∀ {clk : Nat → Nat} {e : Entry} {c : Na
         exact ⟨[], r, rfl, by simp [h2]⟩
       · obtain ⟨pre, post, hr, hc⟩ := ih h
         refine ⟨e' :: pre, post, by simp [hr], ?_⟩
-        rw [hc, List.countP_cons]
-        simp only [bump, isFinOf]
-        by_cases hb : (e'.finish && e.owner == e'.owner) = true
-        · have hb' : (e'.finish && e'.owner == e.owner) = true := by
-            simp only [Bool.and_eq_true, beq_iff_eq] at hb ⊢; exact ⟨hb.1, hb.2.symm⟩
-          simp [hb, hb']; omega
-        · have hb' : ¬ (e'.finish && e'.owner == e.owner) = true := by
-            simp only [Bool.and_eq_true, beq_iff_eq, not_and] at hb ⊢; intro h1 h2; exact hb h1 h2.symm
-          simp [hb, hb']
+        rw [hc, List.countP_cons, getClk_bump]
+        omega
 
 theorem trace_map_fst (p : List Entry) : ∀ clk, (trace clk p).map (·.1) = p := by
   induction p with
   | nil => intro clk; rfl
   | cons e r ih => intro clk; simp [trace, ih]
 
-theorem finalClocks_eq (p : List Entry) : ∀ (clk : Nat → Nat) (m : Nat),
-    finalClocks clk p m = clk m + p.countP (isFinOf m) := by
+theorem finalClocks_eq (p : List Entry) : ∀ (clk : Clocks) (m : Nat),
+    getClk (finalClocks clk p) m = getClk clk m + p.countP (isFinOf m) := by
   induction p with
   | nil => intro clk m; simp [finalClocks]
   | cons e r ih =>
       intro clk m
       simp only [finalClocks]
-      rw [ih, List.countP_cons]
-      simp only [bump, isFinOf]
-      by_cases hb : (e.finish && m == e.owner) = true
-      · have hb' : (e.finish && e.owner == m) = true := by
-          simp only [Bool.and_eq_true, beq_iff_eq] at hb ⊢; exact ⟨hb.1, hb.2.symm⟩
-        simp [hb, hb']; omega
-      · have hb' : ¬ (e.finish && e.owner == m) = true := by
-          simp only [Bool.and_eq_true, beq_iff_eq, not_and] at hb ⊢; intro h1 h2; exact hb h1 h2.symm
-        simp [hb, hb']
+      rw [ih, List.countP_cons, getClk_bump]
+      omega
 
 /-! ### Counting the clock increments of one owner in the cross product -/
 
@@ -283,6 +307,86 @@ theorem countP_cross_finish {T : Times} {fl : List Func} (hF : FinishLast fl) {f
   apply List.countP_congr
   intro k _
   simp [isFinOf, hfin, Function.comp]
+
+/-! ### The executable separation checks are sound -/
+
+theorem mem_allTimes {T : Times} {owners : List Nat} {t : Int} :
+    t ∈ allTimes T owners ↔ ∃ m ∈ owners, ∃ k, k < T.npts m ∧ t = T.tv m k := by
+  simp only [allTimes, List.mem_flatMap, List.mem_map, List.mem_range]
+  constructor
+  · rintro ⟨m, hm, k, hk, rfl⟩; exact ⟨m, hm, k, hk, rfl⟩
+  · rintro ⟨m, hm, k, hk, rfl⟩; exact ⟨m, hm, k, hk, rfl⟩
+
+theorem gapsOK_pairwise (n : Nat) : ∀ (l : List Int), l.Pairwise (fun a b => a ≤ b) → gapsOK n l = true →
+    l.Pairwise (fun a b => a < b → a + (n : Int) ≤ b)
+  | [], _, _ => List.Pairwise.nil
+  | [_], _, _ => by simp
+  | a :: b :: r, hs, hg => by
+      simp only [gapsOK, Bool.and_eq_true, Bool.or_eq_true, decide_eq_true_eq] at hg
+      rw [List.pairwise_cons] at hs
+      have ih := gapsOK_pairwise n (b :: r) hs.2 hg.2
+      refine List.pairwise_cons.2 ⟨?_, ih⟩
+      intro z hz hlt
+      rcases List.mem_cons.1 hz with rfl | hz'
+      · rcases hg.1 with h | h
+        · omega
+        · exact h
+      · have hbz := (List.pairwise_cons.1 hs.2).1 z hz'
+        rcases hg.1 with h | h
+        · subst h
+          exact (List.pairwise_cons.1 ih).1 z hz' hlt
+        · omega
+
+theorem separatedFast_sound {T : Times} {fl : List Func} {n : Nat} (h : separatedFast T fl n = true) :
+    Separated T fl n := by
+  unfold separatedFast at h
+  have hsorted := List.pairwise_mergeSort (le := fun (a b : Int) => decide (a ≤ b))
+    (fun a b c hab hbc => by simp only [decide_eq_true_eq] at *; omega)
+    (fun a b => by simp only [Bool.or_eq_true, decide_eq_true_eq]; omega)
+    (allTimes T (fl.map (·.owner)).eraseDups)
+  have hsorted' : ((allTimes T (fl.map (·.owner)).eraseDups).mergeSort (fun a b => decide (a ≤ b))).Pairwise
+      (fun a b => a ≤ b) := hsorted.imp (fun h => by simpa using h)
+  have hgap := gapsOK_pairwise n _ hsorted' h
+  intro f hf g hg i hi j hj hlt
+  have hmem : ∀ (f : Func), f ∈ fl → ∀ i, i < T.npts f.owner → T.tv f.owner i ∈
+      (allTimes T (fl.map (·.owner)).eraseDups).mergeSort (fun a b => decide (a ≤ b)) := by
+    intro f hf i hi
+    rw [(List.mergeSort_perm _ _).mem_iff, mem_allTimes]
+    exact ⟨f.owner, List.mem_eraseDups.2 (List.mem_map.2 ⟨f, hf, rfl⟩), i, hi, rfl⟩
+  rcases pairwise_trichotomy (hsorted'.and hgap) _ (hmem f hf i hi) _ (hmem g hg j hj) with h | h | h
+  · omega
+  · exact h.2 hlt
+  · omega
+
+theorem separatedB_sound {T : Times} {fl : List Func} {n : Nat} (h : separatedB T fl n = true) :
+    Separated T fl n := by
+  simp only [separatedB, List.all_eq_true, Bool.or_eq_true, Bool.not_eq_true', decide_eq_false_iff_not,
+    decide_eq_true_eq] at h
+  intro f hf g hg i hi j hj hlt
+  have hm : ∀ (f : Func), f ∈ fl → ∀ i, i < T.npts f.owner →
+      T.tv f.owner i ∈ allTimes T (fl.map (·.owner)).eraseDups := by
+    intro f hf i hi
+    rw [mem_allTimes]
+    exact ⟨f.owner, List.mem_eraseDups.2 (List.mem_map.2 ⟨f, hf, rfl⟩), i, hi, rfl⟩
+  rcases h _ (hm f hf i hi) _ (hm g hg j hj) with h' | h'
+  · exact absurd hlt h'
+  · exact h'
+
+theorem strictMonoB_sound {T : Times} {owners : List Nat} (h : strictMonoB T owners = true) :
+    ∀ m ∈ owners, ∀ i j, i < j → j < T.npts m → T.tv m i < T.tv m j := by
+  simp only [strictMonoB, List.all_eq_true, List.mem_range, Bool.or_eq_true, beq_iff_eq, decide_eq_true_eq] at h
+  intro m hm i j hij hj
+  induction j with
+  | zero => omega
+  | succ j ih =>
+      have hstep := h m hm (j + 1) hj
+      rcases hstep with h0 | h1
+      · omega
+      · simp only [Nat.add_sub_cancel] at h1
+        rcases Nat.lt_or_ge i j with hlt | hge
+        · have := ih hlt (by omega); omega
+        · have : i = j := by omega
+          subst this; exact h1
 
 /-! ### `collect`: facts that hold for every module set, given decidable facts about the table -/
 
